@@ -88,7 +88,7 @@ var plans = map[string][]part{
 	"C06": {{"seq", 50, false}, {"iofault", 50, false}},
 	"C07": {{"seq", 100, false}},
 	"C08": {{"conc", 60, false}, {"conc", 40, true}},
-	"C09": {{"conc", 100, false}},
+	"C09": {{"conc", 80, false}, {"iofault", 20, false}}, // a call must also return when the storage fails under it (a failed flush, a failed commit)
 	"C10": {{"seq", 100, false}},
 	"C11": {{"repair", 100, false}},
 	"C12": {{"diff", 100, false}},
